@@ -94,8 +94,10 @@ def main(argv=None):
     # ---------------------------------------------------------------- generate
     reports = []
     trusted, inlined_contracts = [], []
+    from contracts.model import AsyncBinding
     for q, c in sorted(CONTRACTS.items()):
-        if pid not in c.properties:
+        c05 = pid == "C05" and isinstance(c, AsyncBinding)
+        if pid not in c.properties and not c05:
             continue
         if c.inline:
             inlined_contracts.append(q)
@@ -105,8 +107,11 @@ def main(argv=None):
             continue
         reports.append(verify_function(q, c))
     obligations = []
+    async_funcs = {r.qualname for r in reports if isinstance(CONTRACTS[r.qualname], AsyncBinding)}
     for rep in reports:
-        obligations += [ob for ob in rep.obligations if relevant(ob, pid)]
+        # C05 is relational: the async twin must satisfy EVERY clause of the shared contract
+        everything = pid == "C05" and rep.qualname in async_funcs
+        obligations += [ob for ob in rep.obligations if everything or relevant(ob, pid)]
         obligations += rep.canaries
     lemma_obs = []
     for lemma in spec.get("lemmas", []):
